@@ -30,6 +30,7 @@ def _store_cmd(with_ds):
 
 
 _C = {}
+_DIGESTS = {}
 
 
 def cmd(with_ds):
@@ -334,8 +335,17 @@ def check_history(role, hist, delta, deviations=None):
                 if aev.startswith('P:rj') and st['inds'] and st['inds'][0][0] == 'A-ASSOCIATE-RJ' and st['inds'][0][1:] != (2, 1, 3):
                     viol.append((tag + ':rj-indication-fields', 'received RJ (2,1,3) indicated as %r (%s)' % (st['inds'][0], where)))
                 for x in st['inds']:
-                    if x[0] == 'DIMSE' and x[1:3] != ('CStoreRQMessage', 3):
-                        viol.append((tag + ':dimse-content', 'reassembled message %r (%s)' % (x, where)))
+                    if x[0] != 'DIMSE':
+                        continue
+                    base = aev.split(',')[-1].replace('+close', '') if aev.startswith('PP:') else aev.replace('+close', '')
+                    want_len = {'P:c3n': None, 'P:d2': len(DATASET)}.get(base, 'any')
+                    if x[1:3] != ('CStoreRQMessage', 3) or (want_len != 'any' and x[3] != want_len):
+                        viol.append((tag + ':dimse-content', 'reassembled message %r, expected a C-STORE-RQ on context 3 with data set length %r (%s)' % (x, want_len, where)))
+                    elif want_len != 'any':
+                        # every message of the same shape must have the same complete content (command set + data set digest)
+                        ref = _DIGESTS.setdefault(want_len, x[4])
+                        if ref != x[4]:
+                            viol.append((tag + ':dimse-digest', 'reassembled message content differs from the same message received earlier: %r (%s)' % (x, where)))
             if aev != 'close' and not aev.endswith('+close') and not aev.startswith('PP:') and ('close' in st['log']) != ('close' in outs):
                 viol.append((tag + ':close', 'event %s in Sta%s: transport %s, model says %s (%s)' % (
                     aev, prev_state, 'closed' if 'close' in st['log'] else 'not closed', 'close' if 'close' in outs else 'keep', where)))
